@@ -80,6 +80,9 @@ def format_sym(x: Sym, spec: str) -> str:
     ctx = current()
     m = _SPEC.match(spec or "")
     if not m:
+        if spec and spec[-1].isalpha() and spec[-1] not in "bcdeEfFgGnosxX":
+            # not a presentation type of Python's format mini-language: the real format() raises ValueError
+            raise ValueError(f"Invalid format specifier {spec!r} for a number")
         raise PathAbort(f"unsupported format spec {spec!r}")
     fill, align, sign, _z, _alt, zero, width, grouping, prec, typ = m.groups()
     width = builtins.int(width) if width else None
